@@ -528,6 +528,11 @@ class Interpreter(BaseInterpreter[TContext, TEvent]):
         finally:
             logger.debug("⚓ Event loop for '%s' has exited.", self.id)
 
+    def _note_chained_event(self) -> None:
+        """Counts an engine-raised event towards the raise-chain breaker."""
+        if self._processing:
+            self._raise_depth += 1
+
     async def _process_event_and_transient_transitions(
         self, event: Union[Event, AfterEvent, DoneEvent]
     ) -> None:
